@@ -225,6 +225,10 @@ class VerifyingKey(object):
         """
         self = cls(_error__please_use_generate=True)
         if not isinstance(point, ellipticcurve.PointJacobi):
+            if point == ellipticcurve.INFINITY:
+                raise MalformedPointError(
+                    "Point at infinity is not a valid public point"
+                )
             point = ellipticcurve.PointJacobi.from_affine(point)
         self.curve = curve
         self.default_hashfunc = hashfunc
